@@ -165,6 +165,7 @@ func c06Run(f []string) string {
 		}
 		var rows []string
 		errs := 0
+		active := 0
 		c06InTree(treeSpec, func() {
 			ch := make(chan string, len(names)+1)
 			for _, n := range names {
@@ -178,9 +179,13 @@ func c06Run(f []string) string {
 				}
 			}
 			errs = b.ReadErrors()
-			// (ActiveFileCount() may still be 1 here: the deferred block of the reader goroutine calls
-			// wg.Done() before stopFileReading, so the channel can close first – status display only)
+			// the deferred block of the reader goroutine calls stopFileReading before wg.Done() (/repo 7025f4b), so
+			// once the channel is closed no file may be listed as active any more (C05 close_status_complete)
+			active = b.ActiveFileCount()
 		})
+		if active != 0 {
+			return fmt.Sprintf("ok errs=%d active-after-close=%d", errs, active)
+		}
 		sort.Strings(rows)
 		out := "."
 		if len(rows) > 0 {
